@@ -8,7 +8,8 @@ from props import _e_util as U
 
 THEOREMS = ["C05.paths_insert", "C05.insert_keeps_ids", "C05.insert_returns", "C05.different_root_refused",
             "C05.strip_invariant", "C05.sep_invariant", "C05.no_dup_mode", "C05.attrs_exact", "C05.new_node_attrs",
-            "C05.nulls_dropped_in_rows", "C05.children_first_appearance"]
+            "C05.nulls_dropped_in_rows", "C05.children_first_appearance", "C05.fold_exact", "C05.dict_to_tree_exact",
+            "C05.rows_to_tree_exact"]
 PROOF_IMPORTS = ["BigtreeProofs.Properties.C05"]
 FNS = ["addpath", "adddict", "addpd", "addpl", "list", "dict", "pd", "pl"]
 ADD_FNS = ("addpath", "adddict", "addpd", "addpl")
@@ -593,13 +594,16 @@ LEVEL_TEXT = ("proof: Lean 4 kernel-checked theorems about the executable model 
               "updated), insert_returns, attrs_exact / new_node_attrs / nulls_dropped_in_rows, different_root_refused, "
               "strip_invariant and sep_invariant (string interface = component interface for a one-character separator "
               "occurring in no name), no_dup_mode (duplicates disallowed: raises, or returns exactly the duplicates-allowed "
-              "result and keeps all names distinct), children_first_appearance (list_to_tree, both duplicate settings: node "
-              "set = prefix closure, each once, children of every node a sublist of the first-appearance list)")
+              "result and keeps all names distinct), children_first_appearance / dict_to_tree_exact / rows_to_tree_exact / "
+              "fold_exact (list_to_tree, dict_to_tree, the DataFrame constructors and the add_*_by_path folds, both "
+              "duplicate settings: node set = prefix closure, each path once, children of every node a sublist of the "
+              "first-appearance list)")
 LEVEL_NOTE = ("the per-call theorems are stated for duplicate_name_allowed=True and transferred to False by no_dup_mode; "
               "children_first_appearance assumes pairwise different path strings (list_to_tree removes exact repeats first); "
-              "dict_to_tree / dataframe_to_tree / polars_to_tree / add_*_by_path are the same fold (Lean: addMany, lemma "
-              "addMany_fold) and are covered for the node set and child order by that lemma, for root-attribute lookup, "
-              "null dropping through pandas/polars and duplicate-attribute refusal by the correspondence check only; "
+              "fold_exact (add_*_by_path from any sibling-unique tree), dict_to_tree_exact and rows_to_tree_exact give node "
+              "set, no duplicates and child order for the other constructors; per-node attributes of the folds, "
+              "root-attribute lookup, null dropping through pandas/polars and the duplicate-attribute refusal rest on the "
+              "per-call theorems plus the correspondence check; "
               "multi-character separators by the correspondence check only. The model is hand-written and tied to /repo by "
               "differential testing of all eight functions against the compiled model")
 TECHNIQUE = ("machine-checked proof (Lean 4) on an executable model + differential correspondence check against the real "
